@@ -36,6 +36,44 @@ REGISTRY = {
         'assumptions': ['change sets use the six defined actuators (the wire decoder rejects others)'],
         'trusted': ['modelled, not verified: HashMap<u8,i16> collection order independence; j1939::IdBuilder::build; Frame::new / FrameBuilder::copy_from_slice'],
     },
+    'C03': {
+        'rule': 'real UnixServer session over a real Unix socket (in-process, current-thread tokio, 1 ms barrier after every write/publication): (1) after a Session frame of each flag class plus 0-3 frames, a client dying at EVERY byte offset of the frame it was writing (8 pools quick / 60 thorough), three termination modes (close, close with unread data = reset, shutdown both), random chunking, signals published concurrently; '
+                '(2) all 32 valid flag bytes + sampled invalid ones x 3 termination modes; (3) random scripts with repeated (re-)registration incl. failed upgrades (6k quick / 60k thorough); commands on the real command channel compared with the extracted session model and with the reference decoding + "stop-all iff armed"; '
+                'non-trivial = script whose last decodable Session frame is armed (failsafe expected); distinct by case text',
+        'exhaustive': {'quick': False, 'thorough': False},
+        'level_text': 'Theorem C03 (= script_holds) proves for ALL lists of well-formed frames, ALL cut offsets inside the next frame, ALL chunkings and signal placements that the session dispatches the commands of the complete frames followed by stop-all iff the last successfully decoded Session frame carried the failsafe flag, and never crashes; '
+                      'C03_bad_upgrade_keeps_arming, C03_unarmed_silent, C03_armed_stops are corollaries. The Gallina session state machine is tied to the real UnixServer by differential execution.',
+        'level_note': 'all termination modes are one EEnd event in the model (the code maps EOF/reset/abort/timeout to the same break); a client that stops reading so that the daemon blocks in write is outside the model. Trusted: kernel, extraction, drv.ml, harness (1 ms quiescence barrier).',
+        'technique': 'Rocq proof (induction over frame lists, chunk-independence lemma drain_app, totality of decoders) + model/implementation correspondence over real Unix sockets',
+        'explanation': 'C03 + corollaries; session model shared with C04/C05',
+        'assumptions': ['payload bytes are 0..255', 'the three termination modes producible on a Unix socket stand for all modes'],
+        'trusted': ['modelled, not verified: tokio select!/read/read_exact semantics, kernel Unix-socket semantics, String::from_utf8_lossy and chars().take(64) (session name is unobservable and not modelled)'],
+    },
+    'C04': {
+        'rule': 'real UnixServer session: (1) short streams of 2-3 frames (incl. an unknown-type frame whose payload embeds a stop-all frame header): EVERY segmentation into <=3 writes, with 0/1/2 signals published between writes; (2) random lists of 0-6 frames over all type codes (valid, ill-sized, undecodable payloads, payload lengths 1..1024, hostile payloads embedding frames), random segmentation, signals between writes, 3 termination modes (12k quick / 120k thorough); '
+                'commands compared with the extracted model and with the reference decoding of the frame list; non-trivial = at least one valid command frame; distinct by case text',
+        'exhaustive': {'quick': False, 'thorough': False},
+        'level_text': 'Theorem C04 (= script_holds) proves for ALL lists of well-formed frames over all type codes and payload lengths 1..1024, ALL segmentations and ALL interleavings with signals that exactly the valid command frames act, in order, each once, and nothing else; '
+                      'C04_segmentation / C04_drain_app state chunk independence explicitly. Tied to the real server by differential execution incl. exhaustive segmentation of short streams.',
+        'level_note': 'the model reflects fix commits 3a26767 (cancel-safe header read) and 57a9948 (rejected frames consume their payload). Trusted: kernel, extraction, drv.ml, harness.',
+        'technique': 'Rocq proof (alignment invariant by induction over frame lists + chunk-independence of the parser state machine) + correspondence over real Unix sockets',
+        'explanation': 'C04, C04_segmentation, C04_drain_app',
+        'assumptions': ['payload bytes are 0..255'],
+        'trusted': ['modelled, not verified: tokio select! cancellation (the header read keeps its partial buffer, the payload read is not inside select!), read_exact, kernel socket semantics'],
+    },
+    'C05': {
+        'rule': 'real UnixServer session + a bystander session that must still be served + process-wide panic counter: for 6 valid encodings (Session, Engine, Motion change, Motion straight, Target, Control) every single-byte substitution at every header and payload offset (15 boundary values quick / all 256 thorough), every truncation, declared lengths 0..64 and 1023..1025; '
+                'structured hostile frame streams (8k quick / 100k thorough) and protocol-biased random garbage (4k / 100k), half of them after a failsafe registration; checks: no panic in any task, session ended through its normal path, bystander served, commands equal to the extracted model (incl. the failsafe stop-all); '
+                'non-trivial = stream of at least 10 bytes; distinct by case text',
+        'exhaustive': {'quick': False, 'thorough': False},
+        'level_text': 'Theorem C05 / C05_from_start prove that for EVERY sequence of byte chunks, signals and end events the session model never reaches a panic point; C05_recv_packet_total proves that every decoder (all 12 packet types, any declared length, any payload) returns a value or an error; '
+                      'the model mirrors every Buf::get_*/split_to/copy_to_bytes/index/unwrap of the Rust decoders as an explicit panic point. Tied to the real code by differential execution of hostile streams.',
+        'level_note': 'isolation of other sessions/control loop is checked by execution (bystander session) and argued from the absence of shared mutable state; release builds (panic=abort) are not executed, the debug build with unwinding is. Trusted: kernel, extraction, drv.ml, harness.',
+        'technique': 'Rocq proof (never-panics by structural walk of every decoder under its size gate; invariant over event sequences) + hostile-input correspondence',
+        'explanation': 'C05, C05_from_start, C05_recv_packet_total, C05_end_applies_failsafe',
+        'assumptions': ['payload bytes are 0..255'],
+        'trusted': ['modelled, not verified: bytes::Buf panic conditions; slice indexing; tokio task isolation of panics'],
+    },
     'C07': {
         'level_text': 'Theorem C07 (and C07_envelope, C07_never_panics) proves the envelope for ALL idle<=max, ALL integer speeds and all 48 '
                       'state/age combinations about the Gallina model of Governor::next_state; the model is tied to the code by exhaustive '
